@@ -38,6 +38,8 @@ type verifAuthHandler struct {
 func (a *verifAuthHandler) Init(jsonconf json.RawMessage, name string) error { return nil }
 func (a *verifAuthHandler) IsInitialized() bool                              { return true }
 func (a *verifAuthHandler) AddRecord(rec *auth.Rec, secret []byte, remoteAddr string) (*auth.Rec, error) {
+	// like the real authenticators: the new record gets the scheme's level
+	rec.AuthLevel = auth.LevelAuth
 	return rec, nil
 }
 func (a *verifAuthHandler) UpdateRecord(rec *auth.Rec, secret []byte, remoteAddr string) (*auth.Rec, error) {
@@ -129,27 +131,6 @@ func (verifDevices) GetAll(uid ...types.Uid) (map[types.Uid][]types.DeviceDef, i
 }
 func (verifDevices) Delete(uid types.Uid, deviceID string) error {
 	return verifStore.mutate("Devices.Delete")
-}
-
-// ---- account management entry points are outside the session-state property: record the hand-over
-var verifAccCalls []string
-
-//verif:override github.com/tinode/chat/server.replyCreateUser
-func verifReplyCreateUser(s *Session, msg *ClientComMessage, rec *auth.Rec) {
-	verifAccCalls = append(verifAccCalls, "create")
-	s.queueOut(NoErr(msg.Id, "", msg.Timestamp))
-}
-
-//verif:override github.com/tinode/chat/server.replyUpdateUser
-func verifReplyUpdateUser(s *Session, msg *ClientComMessage, rec *auth.Rec) {
-	verifAccCalls = append(verifAccCalls, "update")
-	s.queueOut(NoErr(msg.Id, "", msg.Timestamp))
-}
-
-//verif:override github.com/tinode/chat/server.replyDelUser
-func verifReplyDelUser(s *Session, msg *ClientComMessage) {
-	verifAccCalls = append(verifAccCalls, "deluser")
-	s.queueOut(NoErr(msg.Id, "", msg.Timestamp))
 }
 
 // verifNewDispatchSession builds a session as the connection handlers do.
